@@ -546,6 +546,8 @@ def allclose(a, b, rtol=1e-8, atol=None):
         except TypeError:
             return np.all([_d <= lim for _d in d])
         else:
+            if len(lim) == 1 and len(d) != 1:  # a of length one was broadcast against b
+                return np.all([_d <= lim[0] for _d in d])
             return np.all([_d <= _lim for _d, _lim in zip(d, lim)])
 
 
